@@ -549,6 +549,7 @@ func runC01(c *Ctx) {
 	ruleDotStructure(c)
 	ruleDataSource(c)
 	ruleLineLimitCounting(c) // the limiter below the reader counts octet by octet, independent of read boundaries
+	ruleDrains(c)            // the reader has one consumer at a time: the drain follows the backend's callback in the same goroutine, it never reads beside it
 	ruleBudgetNotEarly(c)
 	ruleStreamLayersReadOnly(c)
 	// the limit the message's lines are measured against is the configured one: a handler that lowers it for the
